@@ -661,29 +661,30 @@ def make_cases(tier, seed):
                                           iterations=int(rs.choice([2, 5, 20]))))
     for i in range(2400 if quick else 30000):
         n = int(rs.randint(6, 13))
-        style = i % 3
-        if style == 0:
+        cls = "geo" if i % 2 else "spatial"
+        model = 1 + (i // 2) % 3
+        steps_mode = (i // 6) % 3 != 0
+        if model == 3 and rs.randint(2):            # near-regular graphs: equal degrees are common
             A = ring_with_chords(rs, n, int(rs.randint(1, 3)), int(rs.randint(0, 3)))
         else:
             A = random_graph(rs, n, rs.uniform(0.2, 0.6))
-        cls = "geo" if i % 2 else "spatial"
-        model = 1 + i % 3 if style else 3
         custom = i % 5 == 0
+        D = None
         if cls == "geo":
             coords = np.vstack([rs.uniform(-80, 80, n), rs.uniform(-180, 180, n)]).round(2)
+            eps = float(rs.choice([2.0 ** -4, 0.125, 0.25, 0.5, 1.0, 4.0]))
         else:
-            coords = rs.randint(0, 5, (2, n)).astype(float) if i % 4 else rs.uniform(0, 4, (2, n)).round(3)
-        D = None
+            coords = rs.randint(0, 5, (2, n)).astype(float) if i % 4 == 1 else rs.uniform(0, 4, (2, n)).round(3)
+            # eps near a random quantile of the link-length differences (boundary cases are common)
+            dd = np.sqrt(((coords[:, :, None] - coords[:, None, :]) ** 2).sum(axis=0))[np.triu_indices(n, 1)]
+            q = np.quantile(np.abs(dd[:, None] - dd[None, :]), rs.uniform(0.05, 0.6))
+            eps = float(2.0 ** np.round(np.log2(max(q, 2.0 ** -6)))) if rs.randint(4) else 16.0
         if custom:                                  # arbitrary symmetric dyadic "distance" matrix
             D = np.triu(rs.randint(0, 17, (n, n)) / 4.0, 1)
             D = D + D.T
-            eps = float(rs.choice([0.25, 0.5, 1.0, 8.0]))
-        elif cls == "geo":
-            eps = float(rs.choice([2.0 ** -4, 0.25, 0.5, 4.0]))
-        else:
-            eps = float(rs.choice([0.125, 0.5, 1.0, 2.0, 16.0]))
+            eps = float(rs.choice([0.25, 0.5, 1.0, 2.0, 8.0]))
         w = (rs.randint(1, 9, n) / 2.0).tolist() if i % 2 else None
-        if i % 2:
+        if steps_mode:
             cases.append(geo_case(A, cls, model, eps, "steps", coords=coords, D=D, steps=4 if quick else 8, w=w))
         else:
             cases.append(geo_case(A, cls, model, eps, "bulk", coords=coords, D=D,
@@ -780,7 +781,7 @@ def main():
     indexed = list(enumerate(cases))
     chunks = [indexed[i:i + csize] for i in range(0, len(indexed), csize)]
     nproc = 1 if args.replay else min(8, os.cpu_count() or 1)
-    stall = 60.0                      # a case takes milliseconds; no result for 60 s = hang
+    stall = 90.0                      # a case takes milliseconds; no result for 90 s = hang
     pool = mp.get_context("fork").Pool(nproc)
     n_undefined = 0
     try:
